@@ -8,7 +8,9 @@
    The transport cuts the stream into arbitrary chunks; the reader
    (PacketReader.ReadPacket -> Packet.ReadFrom -> _read loops) collects
    header, payload, footer, ext in that order across chunk boundaries, then compares the
-   hash.  An attacker/fault may alter one unit of the stream in transit.
+   hash.  An attacker/fault may alter one unit of the stream in transit, and in addition the
+   footer hash of the same packet (garbling it or blanking it to all zeros -- the sender-side
+   convention "hash 0 = not calculated yet" must not leak into the reader).
 
    Abstraction: the stream is a sequence of CELLS.  The fixed header fields are one cell
    (value = abstract header id), the payload length is one cell (value = number of payload
@@ -24,6 +26,7 @@ CONSTANTS Hdrs,        \* abstract header-field values used by the writer (posit
           ELens,       \* ext lengths (cells) used by the writer
           MaxLen,      \* largest payload length the reader accepts (DefaultPacketPayloadMax)
           MaxPkts,     \* packets written in one run
+          MaxHits,     \* 1: one altered cell; 2: a second alteration, of the footer hash of the same packet
           RecordHist   \* TRUE in the generator: keep the event history with predictions
 
 SetMax(S) == CHOOSE x \in S : \A y \in S : y <= x
@@ -57,7 +60,7 @@ VARIABLES sent,      \* packets handed to WritePacket, in order
           rs,        \* reader: phase, cells still needed, collected cells, parsed parts
           out,       \* packets returned by ReadPacket, in order
           dead,      \* ReadPacket returned an error (the peer closes the connection)
-          hit,       \* the alteration made in transit: <<>> or <<[at, kind, p, v]>>
+          hit,       \* the alterations made in transit: sequence of [at, kind, p, v] (at most MaxHits)
           hist
 vars == <<sent, wire, pos, closed, eof, rs, out, dead, hit, hist>>
 
@@ -124,18 +127,25 @@ Chunk(j) ==
   /\ Log([op |-> "chunk", hv |-> 0, pl |-> 0, el |-> 0, at |-> 0, kind |-> "", v |-> 0, n |-> j])
 
 \* values an altered cell can take, by the role the cell had for the writer
+Zero == 0                            \* the hash cell with all bytes zero
 Alter(kind, old) ==
   CASE kind = "pl" -> (0..(MaxLen + 1)) \ {old}
     [] kind = "el" -> (0..MaxE) \ {old}
+    [] kind = "hash" -> {Garbled, Zero}
     [] OTHER -> {Garbled}
 
 AlterVals == (0..(MaxLen + 1)) \cup (0..MaxE) \cup {Garbled}
 \* one cell that has not reached the reader yet is altered in transit
+\* (a second alteration is the footer hash of the packet that was altered first)
 Corrupt(i, v) ==
-  /\ hit = <<>> /\ i > pos /\ i <= Len(wire)
+  /\ i > pos /\ i <= Len(wire)
+  /\ \/ hit = <<>>
+     \/ /\ Len(hit) = 1 /\ MaxHits >= 2 /\ hit[1].kind # "hash"
+        /\ wire[i].kind = "hash" /\ wire[i].p = hit[1].p
   /\ v \in Alter(wire[i].kind, CellVal(wire[i].c))
+  /\ (hit # <<>> => v = Zero)          \* (a garbled hash on top of another alteration adds nothing)
   /\ wire' = [wire EXCEPT ![i].c = Data(v)]
-  /\ hit' = <<[at |-> i, kind |-> wire[i].kind, p |-> wire[i].p, v |-> v]>>
+  /\ hit' = Append(hit, [at |-> i, kind |-> wire[i].kind, p |-> wire[i].p, v |-> v])
   /\ UNCHANGED <<sent, pos, closed, eof, rs, out, dead>>
   /\ Log([op |-> "corrupt", hv |-> 0, pl |-> 0, el |-> 0, at |-> i, kind |-> wire[i].kind, v |-> v, n |-> wire[i].p])
 
@@ -162,7 +172,7 @@ Spec == Init /\ [][Next]_vars
 ----------------------------------------------------------------------------
 (* Properties (C30) *)
 Proj(p) == [hv |-> p.hv, pay |-> [i \in 1..p.pl |-> PayCell(i)], el |-> p.el, ext |-> [i \in 1..p.el |-> ExtCell(i)]]
-TypeOK == /\ pos <= Len(wire) /\ Len(out) <= Len(sent) /\ Len(hit) <= 1
+TypeOK == /\ pos <= Len(wire) /\ Len(out) <= Len(sent) /\ Len(hit) <= MaxHits
           /\ (eof => closed)
 \* without alteration the reader returns exactly the written packets, in order, for every chunking
 RoundTrip ==
@@ -176,9 +186,11 @@ Prompt ==
 HeaderPayloadIntact ==
   \A i \in 1..Len(out) : out[i].hv = sent[i].hv /\ out[i].pay = Proj(sent[i]).pay
 \* an altered header, payload or hash: that packet and everything after it is never returned
+\* (also when the footer hash was altered as well, in particular blanked to zero)
+Protected(h) == h.kind \in {"hv", "pl", "pay", "hash"}
 CorruptionRejected ==
-  (hit # <<>> /\ hit[1].kind \in {"hv", "pl", "pay", "hash"}) => Len(out) < hit[1].p
+  \A i \in 1..Len(hit) : Protected(hit[i]) => Len(out) < hit[i].p
 \* ... and the reader has reported the error at the latest when the stream ends
 CorruptionReported ==
-  (hit # <<>> /\ hit[1].kind \in {"hv", "pl", "pay", "hash"} /\ eof) => dead
+  ((\E i \in 1..Len(hit) : Protected(hit[i])) /\ eof) => dead
 =============================================================================
